@@ -35,6 +35,20 @@ pub const PRECEDING: &[&str] = &[
     "(define pre4 \"first line\n  second line\\\" still\nthird\")\n(define pre5 '|a\nb|) ; c\n",
 ];
 
+/// preceding material by index: the fixed texts above, then generated material that puts the
+/// failing form on every line / column up to a few hundred (4+n: n empty lines; 1000+k: k blanks
+/// on the form's own line; 2000+n: n lines of code and comments, then n blanks; 3000+n: one line
+/// of n characters that ends in a comment, then the form)
+pub fn preceding(pre: usize) -> String {
+    match pre {
+        0..=3 => PRECEDING[pre].to_string(),
+        4..=999 => "\n".repeat(pre - 4),
+        1000..=1999 => " ".repeat(pre - 1000),
+        2000..=2999 => format!("{}{}", "(define zz 1) ; c\n".repeat(pre - 2000), " ".repeat(pre - 2000)),
+        _ => format!("(define zz 1) ;{}\n", "c".repeat(pre - 3000)),
+    }
+}
+
 /// crude token splitter for harness-authored text (parens, quote, strings, #\c, atoms)
 pub fn tokens(text: &str) -> Vec<String> {
     let cs: Vec<char> = text.chars().collect();
@@ -160,7 +174,7 @@ pub fn render(c: &Case) -> Rendered {
         }
         (start, w.pos())
     };
-    w.push(PRECEDING[c.pre]);
+    w.push(&preceding(c.pre));
     for d in &c.defs {
         emit_form(&mut w, d, &[], &mut all, &mut fault_tokens);
         w.push("\n");
@@ -216,6 +230,26 @@ pub fn cases(thorough: bool) -> Vec<Case> {
                         continue; // preceding material on a rotating fifth of the layouts
                     }
                     out.push(Case { kind, fault: f, ctx: name.clone(), pre, defs: defs.clone(), form: form.clone(), layout: layout.clone() });
+                }
+            }
+        }
+    }
+    // scale ladders: the failing form at every line and column up to `far`
+    let far = if thorough { 700 } else { 300 };
+    let mut seen_kinds: Vec<&str> = vec![];
+    for (kind, f) in c08::faults() {
+        if seen_kinds.contains(&kind) {
+            continue;
+        }
+        seen_kinds.push(kind);
+        for (name, defs, form) in c08::contexts(PH).into_iter().filter(|(n, _, _)| matches!(*n, "direct" | "operand" | "tail-let")) {
+            let defs: Vec<String> = crate::sexp::parse_all(&defs).iter().map(|d| d.to_string()).collect();
+            for n in 1..=far {
+                for pre in [4 + n, 1000 + n, 2000 + n, 3000 + n] {
+                    if pre >= 2000 && seen_kinds.len() % 3 != n % 3 {
+                        continue;
+                    }
+                    out.push(Case { kind, fault: f, ctx: name.to_string(), pre, defs: defs.clone(), form: form.clone(), layout: vec![1, 0, 2] });
                 }
             }
         }
